@@ -22,6 +22,11 @@ struct St {
     v: Violations,
     classes: BTreeMap<Vec<Defect>, u64>,
     sample: Vec<serde_json::Value>,
+    /// one long-lived formatter per configuration (keyed by the pristine formatter's address):
+    /// every case is also formatted on it, after whatever this worker formatted before
+    reused: std::collections::HashMap<usize, Runner>,
+    reused_out: Vec<u8>,
+    reused_compared: u64,
 }
 
 /// entries whose accept/reject decision the property statement does not determine
@@ -86,24 +91,42 @@ fn mask_now(entry: &EntryD, b: &[u8]) -> Vec<u8> {
 }
 
 fn check(st: &mut St, cfg: &CfgD, pristine: &Emf, partner_pristine: &Emf, entry: &EntryD) {
-    st.cases += 1;
+    check_one(st, cfg, pristine, partner_pristine, entry, false);
+    // the same decision and output must come from a formatter that has already formatted other
+    // (accepted and rejected) entries: validation state must not leak between entries
+    check_one(st, cfg, pristine, partner_pristine, entry, true);
+}
+
+fn check_one(st: &mut St, cfg: &CfgD, pristine: &Emf, partner_pristine: &Emf, entry: &EntryD, reused: bool) {
+    if !reused {
+        st.cases += 1;
+    }
     let profile = if cfg!(debug_assertions) { "debug-assertions" } else { "no-debug-assertions" };
     let d = defects(cfg, entry);
     let mut out = std::mem::take(&mut st.out);
-    let outcome = run_fresh(pristine, cfg.mult, entry, &mut out);
-    let replay = |out: &[u8]| json!({"config": cfg.to_json(), "profile": profile, "entry": entry.to_json(),
+    let outcome = if reused {
+        st.reused_compared += 1;
+        out.clear();
+        let key = pristine as *const Emf as usize;
+        let mult = cfg.mult;
+        st.reused.entry(key).or_insert_with(|| Runner::from_emf(pristine.clone(), mult)).format(entry, &mut out)
+    } else {
+        run_fresh(pristine, cfg.mult, entry, &mut out)
+    };
+    let suffix = if reused { ":on-reused-formatter" } else { "" };
+    let replay = |out: &[u8]| json!({"config": cfg.to_json(), "profile": profile, "entry": entry.to_json(), "formatter": if reused { "long-lived (had formatted other entries before)" } else { "fresh" },
         "defects_per_statement": format!("{d:?}"), "outcome": format!("{outcome:?}"), "output": String::from_utf8_lossy(out)});
     if cfg.validating() != Some(true) {
-        st.not_validating += 1;
+        if !reused { st.not_validating += 1; }
     } else if unspecified(cfg, entry) {
-        st.unspecified += 1;
+        if !reused { st.unspecified += 1; }
     } else if !d.is_empty() {
         *st.classes.entry(d.clone()).or_default() += 1;
         match &outcome {
             Outcome::Validation(_) if out.is_empty() => st.malformed_rejected += 1,
             Outcome::Validation(_) => st.v.add("bytes-written-on-validation-error", "validation error but output written", replay(&out)),
             Outcome::Ok => st.v.add(
-                format!("malformed-accepted:{:?}:ctor={:?}:{profile}", d[0], cfg.ctor),
+                format!("malformed-accepted:{:?}:ctor={:?}:{profile}{suffix}", d[0], cfg.ctor),
                 format!("an entry with defect(s) {d:?} was accepted although validations are enabled ({:?}, {profile})", cfg.ctor),
                 replay(&out)),
             Outcome::Io(e) => st.v.add("io-error-on-infallible-writer", format!("{e}"), replay(&out)),
@@ -117,7 +140,9 @@ fn check(st: &mut St, cfg: &CfgD, pristine: &Emf, partner_pristine: &Emf, entry:
                     Ok(recs) => {
                         if let Some(dup) = recs.iter().find_map(|r| r.duplicate_member.clone()) {
                             let class = dimension_key_collision(cfg, entry).unwrap_or("other");
-                            st.v.add(format!("duplicate-member:{class}"),
+                            // an input-shape finding is the same finding on any formatter
+                            let suffix = if class == "other" { suffix } else { "" };
+                            st.v.add(format!("duplicate-member:{class}{suffix}"),
                                 format!("accepted with validations enabled, but a record has two members named {dup:?} ({class})"), replay(&out));
                         }
                     }
@@ -128,14 +153,14 @@ fn check(st: &mut St, cfg: &CfgD, pristine: &Emf, partner_pristine: &Emf, entry:
                 let o2 = run_fresh(partner_pristine, cfg.mult, entry, &mut out2);
                 st.transparency_compared += 1;
                 if o2 != Outcome::Ok || lines(&mask_now(entry, &out)) != lines(&mask_now(entry, &out2)) {
-                    st.v.add("validation-alters-output", "output with validations differs from the output without",
+                    st.v.add(format!("validation-alters-output{suffix}"), "output with validations differs from the output without",
                         json!({"config": cfg.to_json(), "entry": entry.to_json(), "with": String::from_utf8_lossy(&out), "without": String::from_utf8_lossy(&out2), "without_outcome": format!("{o2:?}")}));
                 }
                 st.out2 = out2;
                 if st.sample.len() < 1 && entry.ops.len() > 4 { st.sample.push(replay(&out)); }
             }
             Outcome::Validation(e) => st.v.add(
-                format!("valid-rejected:ctor={:?}", cfg.ctor),
+                format!("valid-rejected:ctor={:?}{suffix}", cfg.ctor),
                 format!("an entry with none of the listed defects was rejected: {e}"), replay(&out)),
             Outcome::Io(e) => st.v.add("io-error-on-infallible-writer", format!("{e}"), replay(&out)),
         }
@@ -176,7 +201,9 @@ fn main() {
     }
     let mut classes: BTreeMap<Vec<Defect>, u64> = BTreeMap::new();
     let (mut cases, mut mr, mut va, mut tc, mut un, mut nv) = (0, 0, 0, 0, 0, 0);
+    let mut reused_total = 0;
     for s in states {
+        reused_total += s.reused_compared;
         cases += s.cases; mr += s.malformed_rejected; va += s.valid_accepted; tc += s.transparency_compared; un += s.unspecified; nv += s.not_validating;
         for (k, n) in s.classes { *classes.entry(k).or_default() += n; }
         rep.violations.merge(s.v);
@@ -195,6 +222,7 @@ fn main() {
     rep.set("defect_kinds_covered", kinds.iter().map(|k| format!("{k:?}")).collect::<Vec<_>>());
     rep.set("defect_sets", classes.iter().map(|(k, n)| json!({"defects": format!("{k:?}"), "cases": n})).collect::<Vec<_>>());
     rep.set("debug_assertions", cfg!(debug_assertions));
+    rep.set("cases_repeated_on_a_long_lived_formatter", reused_total);
     rep.assume("'enabled' = Emf::all_validations in every profile; Emf::builder()/skip_all_validations(false) only when debug assertions are on (its documentation says so)");
     rep.assume("same metric name under two different per-metric dimension sets lands in different records and is not a duplicate");
     rep.finish();
